@@ -49,10 +49,12 @@ impl SassError {
         }
     }
 
-    pub(crate) fn raw(self) -> (String, Span) {
+    /// Returns the message and span of a raw error, or the error itself if it
+    /// is not raw (e.g. an `io::Error` from reading an imported file)
+    pub(crate) fn try_raw(self) -> Result<(String, Span), Self> {
         match self.kind {
-            SassErrorKind::Raw(string, span) => (string, span),
-            e => unreachable!("unable to get raw of {:?}", e),
+            SassErrorKind::Raw(string, span) => Ok((string, span)),
+            kind => Err(SassError { kind }),
         }
     }
 
